@@ -141,11 +141,85 @@ def C01(run):
                simulate='num=%d' % n, workers=8, timeout_ms=5000)
 
 
+def interp(run, fam, family='exec', profiles=('debug',)):
+    tlc_replay(run, 'interp-' + fam, 'MC_Interp.tla', 'MC_Interp_%s_%s.cfg' % (fam, run.tier), family, profiles=profiles, timeout_ms=20000)
+
+
+INTERP_NOTE = ('the interpreter is a small-step abstract machine in TLA+ (Interp.tla); TLC runs every program of the bounded family, '
+               'checks the machine invariants in every state, and prints each complete run; the real interpreter must reproduce the bytes '
+               'written, the read calls, the outcome and the full environment snapshot (all scopes, pronoun referent, control-flow state) '
+               'after every completed statement (hook rrss_verif); non-trivial = more than one statement event')
+
+
+def C04(run):
+    run.rule = 'family CF (nested if/else, while, until, break, continue, conditions of every kind, top-level exits); ' + INTERP_NOTE
+    interp(run, 'CF')
+
+
+def C05(run):
+    run.rule = 'family FN (18 function bodies x 14 call sites + two-parameter, recursive, nested and clashing definitions); ' + INTERP_NOTE
+    interp(run, 'FN')
+    interp(run, 'CF') if run.tier == 'thorough' else None
+
+
+def C08(run):
+    run.rule = ('family IO: say/listen programs x input texts x every writer byte budget x every failing read call; the instrumented '
+                'reader hands out one line per call and the writer accepts a byte budget; ' + INTERP_NOTE)
+    run.assumptions += ['input is valid UTF-8 with LF line ends; byte budgets are applied to ASCII output only']
+    interp(run, 'IO')
+
+
+def C09(run):
+    run.rule = ('family ILL (44 statement forms x 12 operand variables x 12 parameter variables incl. function/variable name clashes, NaN, '
+                'negative and huge numbers) plus every other interpreter family, in debug and release builds, in supervised worker processes; '
+                + INTERP_NOTE)
+    for fam in ['ILL', 'FN', 'AR', 'MU', 'DICT'] + (['CF', 'IO'] if run.tier == 'thorough' else []):
+        interp(run, fam, profiles=('debug', 'release'))
+
+
+def C10(run):
+    run.rule = ('family DICT (arrays filled through 3-4 distinct non-numeric keys in every order, then joined / printed / compared / named in '
+                'an error) and family ILL: each run is compared with the model and repeated 7 times in one process (fresh hasher state per map) '
+                'and once in a second process; output bytes, outcome and the full error text must be identical')
+    run.assumptions += ['hash seeds are sampled (8 runs per program), not enumerated']
+    interp(run, 'DICT', family='determ')
+    interp(run, 'ILL', family='determ')
+
+
+def C15(run):
+    run.rule = ('family RN: every FN/MU (thorough: also CF) program under 4-8 injective renamings of its 30 abstract names into simple, common and '
+                'proper names (accented letters included), every mention in another letter case; output, outcome and every statement event must '
+                'equal the unrenamed model run; Names.tla invariants (case-folded key equal across spellings, distinct for distinct names) by TLC')
+    run.assumptions += ['keyword case and text-level spelling are covered by the grammar family of C02, not here']
+    interp(run, 'RN', family='rename')
+
+
+_C06_table, _C07_table = C06, C07
+
+
+def C06(run):
+    _C06_table(run)
+    run.rule += '; family AR: all sequences of 3 (thorough: 4) array operations over variables copied from one another; ' + INTERP_NOTE
+    interp(run, 'AR')
+
+
+def C07(run):
+    _C07_table(run)
+    run.rule += '; family MU: mutations on variables, subscripts and pronouns with and without destination through the interpreter'
+    interp(run, 'MU')
+
+
 PROPS = {
     'C01': (C01, 'model_checking'),
     'C03': (C03, 'model_checking'),
     'C06': (C06, 'model_checking'),
+    'C04': (C04, 'model_checking'),
+    'C05': (C05, 'model_checking'),
     'C07': (C07, 'model_checking'),
+    'C08': (C08, 'model_checking'),
+    'C09': (C09, 'model_checking'),
+    'C10': (C10, 'model_checking'),
+    'C15': (C15, 'model_checking'),
     'C12': (C12, 'model_checking'),
     'C14': (C14, 'model_checking'),
 }
